@@ -336,6 +336,9 @@ fn run_closure_l<L: Language>(case: &Hist, dir: Dir, obs: &mut Obs) -> Result<()
     if case.ops.iter().any(|o| matches!(o, HOp::Add(t) if t.kids().iter().any(|(b, _)| !b.is_empty()))) {
         obs.label("binder");
     }
+    if terms.iter().any(|t| t.has_same_node_shadowing()) {
+        obs.label("same-node-shadowing");
+    }
     if effective_unions > 0 {
         obs.label("effective-union");
     }
